@@ -5,7 +5,7 @@
 export GOFLAGS=-mod=mod GOPROXY=off GOSUMDB=off GOTOOLCHAIN=local; unset GOWORK
 sd=$1; wt=$2; shift 2
 pkgdir=$(python3 -c "import json;print(json.load(open('$sd/meta.json'))['demo_pkg_dir'])")
-demo=$(ls $sd/*_test.go | head -1)
+demo=$sd/zz_seed_demo_test.go; [ -f $demo ] || demo=$(ls $sd/*_test.go | head -1)
 cd $wt || exit 9
 git checkout -q -- . && git clean -fdq
 git apply $sd/patch.diff || { echo "RESULT $sd apply-failed"; exit 1; }
